@@ -5,6 +5,7 @@ package main
 import (
 	"fmt"
 	"go/types"
+	"sort"
 	"strings"
 )
 
@@ -36,6 +37,9 @@ func (e *Env) tryLoc(x Expr) *locPat {
 	case *ECall:
 		if n.Fun == "ghost" && len(n.Args) == 1 {
 			if id, ok := n.Args[0].(*EIdent); ok {
+				if strings.HasSuffix(id.Name, "_all") {
+					return &locPat{ghost: id.Name}
+				}
 				if _, ok := e.c.ghosts[id.Name]; !ok {
 					panic(genErr("unknown ghost %s", id.Name))
 				}
@@ -205,7 +209,7 @@ func (g *FnGen) frameAxiomPats(pats []*locPat, sort, old, nw, nextPre string) st
 func (g *FnGen) evalPats(env *Env, mods []Clause) []*locPat {
 	var pats []*locPat
 	for _, m := range mods {
-		pats = append(pats, env.evalLoc(m.E))
+		pats = append(pats, g.expandGhost(env.evalLoc(m.E))...)
 	}
 	return pats
 }
@@ -312,7 +316,7 @@ func (g *FnGen) checkCallFrame(s *State, fc *FuncContract, env *Env, site string
 		}
 		for i, cp := range cpats {
 			if cp.ghost != "" {
-				if !ourGhosts[cp.ghost] {
+				if !ourGhosts[cp.ghost] && !g.c.ghosts[cp.ghost].Scratch {
 					g.addObl(s, "frame", fmt.Sprintf("frame[call@%s.%d%s]", site, i+1, suffix), "callee modifies ghost "+cp.ghost, g.posOf(), "false")
 				}
 				continue
@@ -341,12 +345,13 @@ func (g *FnGen) locsetSorts(fc *FuncContract, ct *callTarget, args []TVal, m Cla
 	g.c.curFile = g.c.ctrFile[fc]
 	defer func() { g.c.curFile = saved }()
 	env := g.contractEnv(fc, ct, g.entry, g.entry, args)
-	p := env.evalLoc(m.E)
-	if p.ghost != "" {
-		ghosts[p.ghost] = true
-		return
+	for _, p := range g.expandGhost(env.evalLoc(m.E)) {
+		if p.ghost != "" {
+			ghosts[p.ghost] = true
+			continue
+		}
+		g.cellSorts(p.typ, heapSorts)
 	}
-	g.cellSorts(p.typ, heapSorts)
 }
 
 func sameType(a, b types.Type) bool {
@@ -356,4 +361,24 @@ func sameType(a, b types.Type) bool {
 		return oka && okb && types.Identical(ma.m, mb.m)
 	}
 	return types.Identical(a, b)
+}
+
+// expandGhost: "ghost Prefix_all" names every ghost whose name starts with Prefix.
+func (g *FnGen) expandGhost(p *locPat) []*locPat {
+	if p.ghost == "" || !strings.HasSuffix(p.ghost, "_all") {
+		return []*locPat{p}
+	}
+	pre := strings.TrimSuffix(p.ghost, "_all")
+	var names []string
+	for n := range g.c.ghosts {
+		if strings.HasPrefix(n, pre) {
+			names = append(names, n)
+		}
+	}
+	sort.Strings(names)
+	var out []*locPat
+	for _, n := range names {
+		out = append(out, &locPat{ghost: n})
+	}
+	return out
 }
